@@ -12,6 +12,7 @@
 (***************************************************************************)
 EXTENDS Naturals, Integers, Sequences, FiniteSets, TLC, Json
 CONSTANTS Writers, Targets0, ConvOutcomes, Faults, Flavours, FsFaults, HaveLibreOffice, EncodeBeforeOpen, ConverterKinds,
+          TNameSet,     \* "std" | "htm" | "noext": spelling of the HTML target name
           PriorSet      \* "none" | "export_edit": the same document object was exported before and a component was then edited in place
 \* ConverterKinds: "stub" (an object with a convert method), "default" (converter=None, no LibreOffice installed),
 \*   "real" (LibreOfficeConverter(executable_path=...) driving an external program), "onpath" (converter=None, the
@@ -23,10 +24,10 @@ vars == <<sc, d, pc, target, parent, tmp, files, res, err, touched>>
 \* tmp: set of live temporary directories; files: files inside them; res: resource dir beside target
 \* touched: sequence of steps at which the target path was written (for TargetOnlyByLastStep)
 
-Sc0 == [writer |-> "rtf", target0 |-> "absent", conv |-> "ok", fault |-> 0, flavour |-> "base", converter |-> "stub", fsfault |-> 0, prior |-> "none"]
+Sc0 == [writer |-> "rtf", target0 |-> "absent", conv |-> "ok", fault |-> 0, flavour |-> "base", converter |-> "stub", fsfault |-> 0, prior |-> "none", tname |-> "std"]
 Init == /\ sc = Sc0 /\ d = 1 /\ pc = "pick"
         /\ target = "absent" /\ parent = "present" /\ tmp = {} /\ files = {} /\ res = FALSE /\ err = "none" /\ touched = <<>>
-Pick == /\ pc = "pick" /\ d <= 8
+Pick == /\ pc = "pick" /\ d <= 9
         /\ CASE d = 1 -> \E v \in Writers : sc' = [sc EXCEPT !.writer = v]
              [] d = 2 -> \E v \in Targets0 : sc' = [sc EXCEPT !.target0 = v]
              [] d = 3 -> \E v \in (IF sc.writer = "rtf" THEN {"stub"} ELSE ConverterKinds) : sc' = [sc EXCEPT !.converter = v]
@@ -39,8 +40,10 @@ Pick == /\ pc = "pick" /\ d <= 8
              [] d = 7 -> \E v \in (IF sc.fault # 0 \/ sc.conv # "ok" THEN {0} ELSE {0} \cup FsFaults) : sc' = [sc EXCEPT !.fsfault = v]
              \* the export under test may be the second one of this document object (state carried between calls)
              [] d = 8 -> \E v \in (IF sc.fault # 0 \/ sc.fsfault # 0 \/ sc.conv # "ok" \/ sc.converter \notin {"stub"} THEN {"none"} ELSE PriorSet) : sc' = [sc EXCEPT !.prior = v]
+             \* the name of the HTML target need not end in ".html" (the resource folder keeps the converter's name)
+             [] d = 9 -> \E v \in (IF sc.writer = "html" THEN TNameSet ELSE {"std"}) : sc' = [sc EXCEPT !.tname = v]
         /\ d' = d + 1 /\ UNCHANGED <<pc, target, parent, tmp, files, res, err, touched>>
-Start == /\ pc = "pick" /\ d = 9 /\ pc' = "mkparent"
+Start == /\ pc = "pick" /\ d = 10 /\ pc' = "mkparent"
          /\ target' = (IF sc.target0 = "old" THEN "old" ELSE "absent")
          /\ parent' = (IF sc.target0 = "missingdir" THEN "missing" ELSE "present")
          /\ UNCHANGED <<sc, d, tmp, files, res, err, touched>>
@@ -71,7 +74,7 @@ WriteTarget == /\ Step("writetarget", "returned") /\ target' = "new" /\ touched'
 WriteTmp == Step("writetmp", "mktmp2") /\ files' = files \cup {"t1/x.rtf"} /\ UNCHANGED <<sc, d, target, parent, tmp, res, err, touched>>
 MkTmp2 == Step("mktmp2", "convert") /\ tmp' = tmp \cup {"t2"} /\ UNCHANGED <<sc, d, target, parent, files, res, err, touched>>
 Convert == /\ pc = "convert"
-           /\ CASE sc.conv = "ok" -> /\ pc' = "move" /\ files' = files \cup {"t2/x.out"} \cup (IF sc.writer = "html" THEN {"t2/x_files"} ELSE {})
+           /\ CASE sc.conv \in {"ok", "ok_empty"} -> /\ pc' = "move" /\ files' = files \cup {"t2/x.out"} \cup (IF sc.writer = "html" THEN {"t2/x_files"} ELSE {})
                                      /\ UNCHANGED <<sc, d, target, parent, tmp, res, err, touched>>
                 [] sc.conv = "raise_before" -> Unwind("convert")
                 [] sc.conv = "raise_after" -> Unwind("convert")      \* the output was produced inside t2 and goes with it
@@ -103,7 +106,7 @@ AllOrNothing == /\ (pc = "raised"   => target = Target0State /\ tmp = {} /\ file
                 /\ (pc = "returned" => target = "new" /\ tmp = {} /\ files = {} /\ (res <=> sc.writer = "html"))
 \* the target path is written exactly once, by the last file-system step of a successful export
 TargetOnlyByLastStep == Len(touched) <= 1 /\ (Len(touched) = 1 => touched[1] \in {"move", "writetarget"})
-MalformedRaises == (pc = "returned" /\ sc.writer # "rtf" /\ sc.converter \in {"stub", "real", "onpath"}) => sc.conv = "ok"
+MalformedRaises == (pc = "returned" /\ sc.writer # "rtf" /\ sc.converter \in {"stub", "real", "onpath"}) => sc.conv \in {"ok", "ok_empty"}
 Terminal == pc \in {"raised", "returned"}
 Emit == Terminal => PrintT(ToJson([sc |-> sc, pc |-> pc, err |-> err]))
 =============================================================================
